@@ -5,9 +5,9 @@ harness("h_c13", ["harness/h_c13.cc"], libs=("csg",))
 
 PROPS["C13"] = dict(
     parts=[rc("h_c13", quick=dict(cases=160000, procs=8, args=["--enum", "6"], budget_s=600),
-              thorough=dict(cases=3000000, procs=16, args=["--enum", "12"], budget_s=1800)),
+              thorough=dict(cases=1600000, procs=16, args=["--enum", "12"], budget_s=2400)),
            py("vv.exe_c13", quick=dict(cases=1600, procs=8, budget_s=600),
-              thorough=dict(cases=40000, procs=16, budget_s=1800))],
+              thorough=dict(cases=24000, procs=16, budget_s=2400))],
     repo_targets=("votca_tools", "votca_csg", "csg_density"),
     rule=("histnew (library, HistogramNew): generated (min,max,nbins) incl. nbins=1,2, min>0/<0/=0, ranges 1e-9..2e300, periodic on/off; "
           "streams of 1..40 (value,weight): bin centres, exact bin edges min+(k+-1/2)step, edges +-step*2^-j, in-range lattice points, exact "
@@ -34,5 +34,6 @@ PROPS["C13"] = dict(
         "legacy Histogram: bond/angle scaling only on ranges of positive length inside r>=0 resp. [0,pi]; constant data (zero-length automatic "
         "range) is checked for getMin/getMax only and not combined with periodic (the wrap loop `while (ii<0) ii+=n` starts at INT64_MIN there); "
         "fixed periodic ranges only with values within 1e7 bins of the range",
-        "x86-64: an out-of-range double->Index cast yields INT64_MIN (gcc's UBSan does not flag float-cast-overflow)"],
+        "x86-64: an out-of-range double->Index cast yields INT64_MIN (gcc's UBSan does not flag float-cast-overflow)",
+        "csg_density: a wall-clock timeout of the tool (900 s, overloaded machine) is a discard, never a verdict; GRO input fixes 3 decimals"],
 )
